@@ -142,3 +142,148 @@ def install_info(path, new_infos):
         return False
     open(path, 'wb').write(body)
     return True
+
+
+# ---------------------------------------------------------------------------------------------------------
+def summary_expected(st):
+    """the summary: tags of status that are functions of the content file (file/block/fragment counts, free space
+    arithmetic, sizes), as 'key[:disk]' -> value"""
+    bs = st['blocksize']
+    bm = st['blockmax']
+    names = [m['name'] for m in st['maps']]
+    pfree = None
+    for lev in sorted(st['levels']):
+        f = st['levels'][lev]['free']
+        pfree = f if pfree is None or f < pfree else pfree
+    pfree = pfree or 0
+    out = {'block_size': bs, 'parity_block_count': bm, 'parity_block_free_min': pfree}
+    tot = {'file_count': 0, 'file_block_count': 0, 'fragmented_file_count': 0, 'excess_fragment_count': 0, 'zerosubsecond_file_count': 0, 'file_size': 0}
+    rows = []
+    for m in st['maps']:
+        n = m['name']
+        d = st['disks'][n]
+        fc = bc = ff = ef = zs = 0
+        size = 0
+        latest = 0
+        for f in d['files']:
+            pos = [p for s, p, h in f['blocks']]
+            if f['nsec'] in (0, -1):
+                zs += 1
+            if pos:
+                frag = 0
+                for a, b in zip(pos, pos[1:]):
+                    if a + 1 != b:
+                        frag = 1
+                        ef += 1
+                ff += frag
+                latest = max(latest, pos[-1])
+                bc += len(pos)
+            fc += 1
+            size += f['size']
+        by_space = bc + m['free']
+        by_parity = bm + pfree
+        out.update({'disk_file_count:' + n: fc, 'disk_block_count:' + n: bc, 'disk_fragmented_file_count:' + n: ff, 'disk_excess_fragment_count:' + n: ef,
+                    'disk_zerosubsecond_file_count:' + n: zs, 'disk_file_size:' + n: size, 'disk_block_allocated:' + n: latest + 1,
+                    'disk_block_total:' + n: m['total'], 'disk_block_free:' + n: m['free'], 'disk_block_max_by_space:' + n: by_space,
+                    'disk_block_max_by_parity:' + n: by_parity, 'disk_block_max:' + n: min(by_space, by_parity), 'disk_space_wasted:' + n: (by_space - by_parity) * bs})
+        rows.append((fc, ff, ef, n))
+        tot['file_count'] += fc; tot['file_block_count'] += bc; tot['fragmented_file_count'] += ff
+        tot['excess_fragment_count'] += ef; tot['zerosubsecond_file_count'] += zs; tot['file_size'] += size
+    out.update(tot)
+    out['parity_size'] = bm * bs
+    out['parity_size_max'] = (bm + pfree) * bs
+    out['hash'] = st['hash']
+    out['prev_hash'] = st['prevhash'] or 'undefined'
+    return out, rows + [(tot['file_count'], tot['fragmented_file_count'], tot['excess_fragment_count'], None)]
+
+
+def graph_expected(tm):
+    """the 15 x 70 graph of status, from the sorted time map (lowest bit = not yet scrubbed)"""
+    count = len(tm)
+    oldest, newest = tm[0], tm[-1]
+    pos = 0
+    barmax = 0
+    sc, nw = [], []
+    for i in range(70):
+        limit = oldest + (newest - oldest) * (i + 1) // 70
+        a = b = 0
+        while pos < count and tm[pos] <= limit:
+            if tm[pos] & 1:
+                b += 1
+            else:
+                a += 1
+            pos += 1
+        barmax = max(barmax, a + b)
+        sc.append(a)
+        nw.append(b)
+    rows = []
+    for y in range(15):
+        if y == 0:
+            r = '%3u%%|' % (barmax * 100 // count)
+        elif y == 14:
+            r = '  0%|'
+        elif y == 7:
+            r = '%3u%%|' % (barmax * 50 // count)
+        else:
+            r = '    |'
+        for x in range(70):
+            up = barmax * (15 - y) // 15
+            lo = barmax * (14 - y) // 15
+            both = sc[x] + nw[x]
+            if both > up:
+                r += '*' if sc[x] > lo else 'o'
+            elif both > lo:
+                r += '*' if sc[x] == both else 'o'
+            else:
+                r += '_' if y == 14 else ' '
+        rows.append(r)
+    return rows
+
+
+def bad_line_expected(sp_bad, n_bad, first, last):
+    """'They are from block a to b, specifically at blocks: ...' (at most 101 positions, then ' and N more...')"""
+    s = 'They are from block %u to %u, specifically at blocks:' % (first, last)
+    printed = 0
+    for i in sp_bad:
+        s += ' %u' % i
+        printed += 1
+        if printed > 100:
+            s += ' and %u more...' % (n_bad - printed)
+            break
+    return s
+
+
+def _bs(b):
+    return _vb(len(b)) + b
+
+
+def install_free(path, disk_free, parity_free):
+    """rewrite the recorded total/free block counts of the data disks ('M' records) and of the parity levels ('P' records)
+    of a content file written by the tool; the records are located by searching their re-encoding.  False if not found."""
+    data = open(path, 'rb').read()
+    st = cnt.parse(data)
+    body = data
+    for m in st['maps']:
+        if m['name'] not in disk_free:
+            continue
+        old = b'M' + _bs(m['name'].encode('latin1')) + _vb(m['pos']) + _vb(m['total']) + _vb(m['free']) + _bs(m['uuid'])
+        if body.count(old) != 1:
+            return False
+        t, f = disk_free[m['name']]
+        body = body.replace(old, b'M' + _bs(m['name'].encode('latin1')) + _vb(m['pos']) + _vb(t) + _vb(f) + _bs(m['uuid']))
+    for lev, (t, f) in parity_free.items():
+        L = st['levels'][lev]
+        old = b'P' + _vb(lev) + _vb(L['total']) + _vb(L['free']) + _bs(L['splits'][0]['uuid'])
+        if L['splits'][0]['path'] is not None or body.count(old) != 1:
+            return False
+        body = body.replace(old, b'P' + _vb(lev) + _vb(t) + _vb(f) + _bs(L['splits'][0]['uuid']))
+    if body[-5:-4] != b'N':
+        return False
+    body = body[:-4]
+    body += struct.pack('<I', cnt.crc32c(body))
+    back = cnt.parse(body)
+    for m in back['maps']:
+        if m['name'] in disk_free and (m['total'], m['free']) != tuple(disk_free[m['name']]):
+            return False
+    open(path, 'wb').write(body)
+    return True
